@@ -296,7 +296,8 @@ Step == \/ CreateTmp \/ ScanRecord \/ SelectChain \/ DiscoverFiles \/ OnStart \/
         \/ CloseIfLast \/ Verify \/ Deliver \/ ProduceSummary \/ FinishDone \/ ExitOk \/ Kill
         \/ FlushSome \/ RenameSome \/ DropSome
 
-Next == (\E s \in Scenarios : Begin(s)) \/ Step
+Start == pc = "idle" /\ \E s \in Scenarios : Begin(s)
+Next == Start \/ Step
 
 Spec == Init /\ [][Next]_vars
 FairSpec == Spec /\ WF_vars(Step)
